@@ -156,7 +156,7 @@ func main() {
 		reset()
 		p := mc.NewProbe(r, "marshal_roundtrip", setup, probe)
 		r.Assume("expected marshalled forms are computed from the reference Shorten (math/big) and the documented switch semantics; values outside the stated alphabet are not covered")
-		dense, neigh := uint64(1<<16), uint64(300)
+		dense, neigh := uint64(1<<17), uint64(500)
 		if !r.Quick() {
 			dense, neigh = 1<<20, 1000
 		}
